@@ -130,7 +130,7 @@ def prove(prop):
 GEN_SOURCES = ["pyp0f/fingerprint/tcp.py", "pyp0f/net/signatures/tcp.py", "pyp0f/fingerprint/results/uptime.py", "pyp0f/fingerprint/results/tcp.py",
                "pyp0f/net/packet.py", "pyp0f/net/quirks.py", "pyp0f/net/layers/ip.py", "pyp0f/net/layers/tcp/tcp.py", "pyp0f/net/layers/tcp/flags.py",
                "pyp0f/database/parse/wildcard.py", "pyp0f/fingerprint/mtu.py", "pyp0f/fingerprint/uptime.py", "pyp0f/net/signatures/mtu.py", "pyp0f/net/layers/tcp/options.py", "pyp0f/fingerprint/http.py", "pyp0f/net/layers/http/http.py", "pyp0f/fingerprint/results/http.py"]
-GEN_THEOREMS = ["gen_parse_options_eq", "gen_parse_options_terminates", "gen_find_http_match_eq", "gen_software_eq", "gen_dishonest_eq", "gen_distance_eq", "gen_find_tcp_match_eq", "gen_find_mtu_match_eq", "gen_valid_for_tcp_fingerprint_eq", "gen_valid_for_mtu_fingerprint_eq", "gen_valid_for_uptime_fingerprint_eq", "gen_mtu_from_mss_eq",
+GEN_THEOREMS = ["gen_headers_match_eq", "gen_parse_options_eq", "gen_parse_options_terminates", "gen_find_http_match_eq", "gen_software_eq", "gen_dishonest_eq", "gen_distance_eq", "gen_find_tcp_match_eq", "gen_find_mtu_match_eq", "gen_valid_for_tcp_fingerprint_eq", "gen_valid_for_mtu_fingerprint_eq", "gen_valid_for_uptime_fingerprint_eq", "gen_mtu_from_mss_eq",
                 "gen_mtu_from_mss_reject", "gen_mtu_signatures_match_eq", "gen_divisors_eq", "gen_win_multi_eq", "gen_tcp_signatures_match_eq", "gen_round_frequency_eq", "gen_guess_distance_eq", "gen_should_fingerprint_eq"]
 
 
@@ -138,7 +138,7 @@ def gen_tie():
     """Regenerate Gallina from /repo's current source (translate/py2coq.py) and re-check that it equals the hand-written
     models (coq/Gen/GenP.v).  Cached on the content of the sources, the translator, the models and the proof file."""
     h = hashlib.sha1()
-    files = [REPO / f for f in GEN_SOURCES] + [VERIF / "translate" / "py2coq.py", COQ / "Gen" / "GenP.v", COQ / "Gen" / "GenOptP.v", COQ / "Proofs" / "OptionsP.v", COQ / "Model" / "Matcher.v",
+    files = [REPO / f for f in GEN_SOURCES] + [VERIF / "translate" / "py2coq.py", COQ / "Gen" / "GenP.v", COQ / "Gen" / "GenOptP.v", COQ / "Gen" / "GenHdrP.v", COQ / "Proofs" / "OptionsP.v", COQ / "Model" / "Matcher.v",
                                                COQ / "Model" / "Select.v", COQ / "Model" / "Uptime.v", COQ / "Model" / "Mtu.v", COQ / "Model" / "HttpMatch.v", COQ / "Model" / "Options.v", COQ / "Model" / "Sig.v", COQ / "Model" / "Bits.v"]
     for f in files:
         h.update(f.read_bytes() if f.exists() else b"<missing>")
@@ -148,7 +148,7 @@ def gen_tie():
     if cache.exists():
         try:
             c = json.load(open(cache))
-            if c.get("key") == key and (COQ / "Gen" / "GenP.vo").exists() and (COQ / "Gen" / "GenOptP.vo").exists():
+            if c.get("key") == key and (COQ / "Gen" / "GenP.vo").exists() and (COQ / "Gen" / "GenOptP.vo").exists() and (COQ / "Gen" / "GenHdrP.vo").exists():
                 return c["result"]
         except Exception:
             pass
@@ -158,11 +158,11 @@ def gen_tie():
         res["detail"] = "translator: " + out.strip()[-400:]
     else:
         for ext in (".vo", ".vok", ".vos", ".glob"):
-            for n in ("Generated", "GenP", "GenOptP"):
+            for n in ("Generated", "GenP", "GenOptP", "GenHdrP"):
                 q = COQ / "Gen" / (n + ext)
                 if q.exists():
                     q.unlink()
-        rc, out = sh("timeout 600 coqc -Q . PV Gen/Generated.v && timeout 900 coqc -Q . PV Gen/GenP.v && timeout 900 coqc -Q . PV Gen/GenOptP.v", 2500, cwd=COQ)
+        rc, out = sh("timeout 600 coqc -Q . PV Gen/Generated.v && timeout 900 coqc -Q . PV Gen/GenP.v && timeout 900 coqc -Q . PV Gen/GenOptP.v && timeout 900 coqc -Q . PV Gen/GenHdrP.v", 3400, cwd=COQ)
         if rc == 0 and out.count("Closed under the global context") == len(GEN_THEOREMS):
             res["ok"] = True
             res["discharged"] = len(GEN_THEOREMS)
